@@ -375,6 +375,12 @@ def _const_truth(e):
     return None
 
 
+def _negate(e):
+    if isinstance(e, ast.UnaryOp) and isinstance(e.op, ast.Not):
+        return e.operand
+    return ast.copy_location(ast.UnaryOp(op=ast.Not(), operand=e), e)
+
+
 def fold_constants(stmts):
     """`if <literal>:` chooses its branch (a literal reaches a test when a helper is expanded with a literal
     argument, e.g. `prior_first=False`); `x = x` is dropped; statements after an unconditional
@@ -389,6 +395,12 @@ def fold_constants(stmts):
                 out += fold_constants(st.body if v else st.orelse)
                 continue
             st.body, st.orelse = fold_constants(st.body), fold_constants(st.orelse)
+            st.body = [b for b in st.body if not isinstance(b, ast.Pass)]
+            st.orelse = [b for b in st.orelse if not isinstance(b, ast.Pass)]
+            if not st.body and not st.orelse:
+                continue                      # (tests are pure in the translated subset)
+            if not st.body:                   # if c: pass / else: B   ==   if not c: B
+                st.test, st.body, st.orelse = _negate(st.test), st.orelse, []
         elif isinstance(st, (ast.For, ast.While)):
             st.body = fold_constants(st.body)
         if isinstance(st, ast.Assign) and len(st.targets) == 1 and isinstance(st.targets[0], ast.Name) \
@@ -576,10 +588,13 @@ def single_exit(body, suffix=""):
         return body, False
     if len(rets) == 1 and stmts and stmts[-1] is rets[0][0]:
         return body, False
-    if any(r.value is None for r, _ in rets):
-        raise Refusal("bare `return` next to other returns")
+    procedure = all(r.value is None for r, _ in rets)
+    if any(r.value is None for r, _ in rets) and not procedure:
+        raise Refusal("bare `return` next to returns of a value")
     tuples = [isinstance(r.value, ast.Tuple) for r, _ in rets]
-    if all(tuples):
+    if procedure:
+        arity = 0
+    elif all(tuples):
         ar = {len(r.value.elts) for r, _ in rets}
         if len(ar) != 1:
             raise Refusal("returns of tuples of different length")
@@ -591,6 +606,8 @@ def single_exit(body, suffix=""):
     names = [f"{RET}{suffix}"] if not arity else [f"{RET}{i}{suffix}" for i in range(arity)]
 
     def assign(r):
+        if procedure:
+            return []
         vals = [r.value] if not arity else list(r.value.elts)
         return [ast.copy_location(ast.Assign(targets=[ast.Name(id=n, ctx=ast.Store())], value=v), r)
                 for n, v in zip(names, vals)]
@@ -613,9 +630,13 @@ def single_exit(body, suffix=""):
                 new.orelse = lin(list(st.orelse) + ([] if _always_exits(st.orelse) else copy.deepcopy(rest)))
                 return out + [new]
             out.append(st)
+        if procedure:
+            return out
         raise Refusal("a path reaches the end of the function without `return` while other paths return a value")
 
     new = lin(stmts)
+    if procedure:
+        return doc + fold_constants(new), True
     if not arity:
         final = ast.Return(value=ast.Name(id=names[0], ctx=ast.Load()))
     else:
